@@ -504,13 +504,75 @@ def run(ctx):
             continue
         ctx.outcome(r["kind"] + ":refs")
         ctx.violation(dict(subject="refs:" + mode, kind=r["kind"], replaced=",".join(sorted({o[0] for o in hh}))), dict(subject="refs:" + mode, history=[list(o) for o in hh]), r)
+    # a port whose name starts with an underscore: all histories up to depth 3 over the same verbs
+    uh = [list(c) for n in (1, 2, 3) for c in itertools.product(USCORE_OPS, repeat=n)]
+    for hh in uh:
+        r = _underscore_port(hh)
+        ctx.count(states=1, transitions=len(hh) + 1, traces_validated_against_impl=1)
+        ctx.fam("underscore_port", histories=1)
+        if r:
+            ctx.violation(dict(subject="underscore_port", kind=r["kind"], replaced=",".join(sorted({o[0] for o in hh}))), dict(subject="underscore_port", history=[list(o) for o in hh]), r)
     ctx.extra.setdefault("depth", {})["refs"] = 4 if ctx.quick else 5
     ctx.sample(dict(subject="refs:" + rh[len(rh) // 2][0], history=[list(o) for o in rh[len(rh) // 2][1]]))
     ctx.assume("only histories whose completed final mapping the reference semantics calls valid are judged at the export level")
 
 
+USCORE_OPS = [("call", "s1"), ("call", "s2"), ("setattr", "s1"), ("setattr", "s2"), ("connect", "s1"), ("connect", "s2"), ("replace", "s2"), ("disconnect", None)]
+
+
+def _underscore_port(hist):
+    """A cell port whose name starts with an underscore (`_en`): the same connection operations, the last one wins."""
+    import hdl21 as h
+
+    try:
+        cell = h.ExternalModule(name="UCell", port_list=[h.Port(name="_en"), h.Port(name="z")], paramtype=dict, domain="hv")
+        m = h.Module(name="UTop")
+        m.s1, m.s2, m.dflt, m.zz = h.Signals(4)
+        m.u = cell()(z=m.zz)
+        final = None
+        for verb, v in hist:
+            try:
+                if verb == "disconnect":
+                    if final is None:
+                        continue
+                    m.u.disconnect("_en")
+                    final = None
+                    continue
+                x = getattr(m, v)
+                if verb == "call":
+                    m.u(**{"_en": x})
+                elif verb == "setattr":
+                    setattr(m.u, "_en", x)
+                elif verb == "connect":
+                    m.u.connect("_en", x)
+                else:
+                    if final is None:
+                        continue
+                    m.u.replace("_en", x)
+                final = v
+            except Exception:
+                continue  # a refused operation leaves the mapping as it was
+            if m.u.conns.get("_en") is not x:
+                return dict(kind="conns", detail=f"after {verb} of {v} to the port `_en`, conns holds {m.u.conns.get('_en')!r:.60}")
+        if final is None:
+            m.u.connect("_en", m.dflt)
+            final = "dflt"
+        pkg = h.to_proto(m)
+        inst = pkg.modules[-1].instances[0]
+        got = {c.portname: c.target.sig for c in inst.connections}
+        if got.get("_en") != final:
+            return dict(kind="partition", detail=f"port `_en` exported on {got.get('_en')!r}, last connected to {final!r}")
+    except Exception as e:
+        return dict(kind="op_raised", detail=short_exc(e))
+    return None
+
+
 def replay(body):
     c = body["case"]
+    if c["subject"] == "underscore_port":
+        r = _underscore_port([tuple(x) for x in c["history"]])
+        print("replay:", r)
+        return 0 if r is None else 1
     if c["subject"].startswith("refs"):
         r = _ref_one((c["subject"].split(":")[1] if ":" in c["subject"] else "a", [tuple(x) for x in c["history"]]))
         print("replay:", r)
